@@ -147,7 +147,8 @@ fn test(c: &Case) -> TestResult {
     }
     d.consume_output(usize::MAX)?;
     let replies = wire::decode_replies(&d.out_log).map_err(|e| Fail::new("stream-output-malformed", e))?;
-    model::match_replies(&sm.replies, &replies).map_err(|e| Fail::new("stream-replies", e))?;
+    let consumed = consumed_records(&d, &b.body_recs, b.pre_end);
+    model::match_replies_upto(&sm.replies, &replies, consumed).map_err(|e| Fail::new("stream-replies", e))?;
 
     let multi = sm.parts.values().any(|p| p.len() >= 2);
     Ok(Outcome::new(multi && (d.saw_compress_nonempty || d.saw_partial_dest))
@@ -168,7 +169,7 @@ pub fn drive_schedule(d: &mut StreamDrv, schedule: &[Act], order: &[u8], truth: 
     // Long wires (65535-byte records) scale the read sizes so that a case stays cheap.
     let mult = 1 + d.wire.len() / 4000;
     let mut budget = (d.wire.len() + 100) * schedule.len() * 4;
-    while !d.all_fed() {
+    while !d.all_fed() && !d.gave_up_after_end {
         budget -= 1;
         vensure!(budget > 0, "harness-inconsistent", "schedule made no progress within its budget");
         let act = &schedule[i % schedule.len()];
@@ -207,6 +208,24 @@ pub fn drive_schedule(d: &mut StreamDrv, schedule: &[Act], order: &[u8], truth: 
     Ok(())
 }
 
+/// Number of leading body records that the parser has taken in completely (fed minus what
+/// `into_input` would hand back): the replies they cause are owed, later ones are not yet.
+pub fn consumed_records(d: &StreamDrv, body: &[Rec], pre_end: usize) -> usize {
+    let rem = d.p.clone().into_input().map(|v| v.len()).unwrap_or(0);
+    let consumed = d.pos.saturating_sub(rem);
+    let mut off = pre_end;
+    let mut k = 0;
+    for r in body {
+        off += r.wire_len();
+        if off <= consumed {
+            k += 1;
+        } else {
+            break;
+        }
+    }
+    k
+}
+
 pub fn maybe_advance(d: &mut StreamDrv, order: &[u8], t: &Truth) -> Result<(), Fail> {
     if let Some(s) = d.active() {
         if d.end_reported.get(&s) == Some(&true) {
@@ -234,6 +253,12 @@ pub fn unstick(d: &mut StreamDrv, order: &[u8], t: &Truth) -> Result<(), Fail> {
         }
     }
     if d.error.is_some() {
+        return Ok(());
+    }
+    if d.active().is_none() {
+        // No stream is selected any more (all of the role's streams are over, or it has none):
+        // a parser may decline whatever follows and leave it to the next request parser.
+        d.gave_up_after_end = true;
         return Ok(());
     }
     vfail!("stream-stuck", "input buffer stays full ({} bytes) although stream data was consumed and the buffer compacted; active stream {:?}", d.p.input_buffer().len(), d.active());
